@@ -81,3 +81,9 @@ package didweb
 //@   ensures [same-origin-redirects-only] result != nil && did(call (*client.StrictHTTPClient).SameOriginRedirectsOnly #1)
 //@        && result.HttpClient == core.HTTPRequestDoer(ret(call (*client.StrictHTTPClient).SameOriginRedirectsOnly #1))
 //@        && arg(call (*client.StrictHTTPClient).SameOriginRedirectsOnly #1, 0) == ret(call client.NewWithCache #1)
+
+// ---- C18 (guard half): the identifier made for a URL names the URL's host AND port exactly as the URL has them
+// (nothing is dropped or normalised: https://h:443/x and https://h/x are different identifiers) ----
+//@ func URLToDID
+//@   prop C18
+//@   call did.ParseDID #1 requires [host-and-port-as-the-url-has-them] didCallWith("percentEncodeString", 0, u.Host)
